@@ -382,6 +382,35 @@ pub fn cmd_mut(args: &[String]) {
             }
         }
     }
+    // the gate draw itself: in fuzzer-bytes mode the first 8 bytes of a call are the f64 the rate gate looks at — every
+    // special double (zeros, infinities, NaNs of both signs and payloads, subnormals, the neighbours of 1.0, huge and
+    // tiny values), for every mutator, every value kind, rate 0.0 and 1.0; the remaining draws read zeros
+    let gate_words: [u64; 26] = [
+        0x0000000000000000, 0x8000000000000000, 0x7ff0000000000000, 0xfff0000000000000, 0x7ff8000000000000, 0xfff8000000000000,
+        0x7ff0000000000001, 0xfff0000000000001, 0x7fffffffffffffff, 0xffffffffffffffff, 0x0000000000000001, 0x8000000000000001,
+        0x000fffffffffffff, 0x0010000000000000, 0x3ff0000000000000, 0x3fefffffffffffff, 0x3ff0000000000001, 0xbff0000000000000,
+        0x3fe0000000000000, 0x4000000000000000, 0x7fefffffffffffff, 0xffefffffffffffff, 0x4330000000000000, 0x4340000000000001,
+        0x3ca0000000000000, 0xbca0000000000000,
+    ];
+    for w in gate_words {
+        for mi in 0..7usize {
+            for (method, value) in [("int", "7"), ("long", "-9"), ("float", "3ff8000000000000"), ("string", "6162"), ("bytes", "00ff7f"), ("memo", "3")] {
+                for r in 0..2 {
+                    let mut ent = w.to_le_bytes().to_vec();
+                    ent.extend_from_slice(&[0u8; 16]);
+                    let args: Vec<String> = vec![
+                        format!("kind={}", MUT_NAMES[mi]),
+                        "unsafe=0".to_string(),
+                        format!("method={}", method),
+                        format!("value={}", value),
+                        format!("rate={:016x}", rates[r]),
+                        format!("ent=arb:{}", hex(&ent)),
+                    ];
+                    println!("{}", guarded_replay(args));
+                }
+            }
+        }
+    }
     // character / string-length: every value of the replacement / extension byte, on strings made
     // of the characters at the ends of the printable range (the gate draw is 8 zero bytes at
     // rate 1.0; then come the index / branch draws, then the byte under test)
